@@ -604,7 +604,10 @@ where
             ),
             _ => {
                 let get_next = async {
+                    // New consumers are passed to this task before the write task can request a sync on their
+                    // behalf so handling them first guarantees that they are present when the response arrives.
                     tokio::select! {
+                        biased;
                         maybe_consumer = consumer_stream.next() => {
                             if let Some((consumer, options)) = maybe_consumer {
                                 ReadTaskEvent::NewConsumer(consumer, options)
